@@ -102,12 +102,7 @@ Proof.
 Qed.
 
 (* ---- the exact effect of one fmp4WriteSample ---- *)
-Definition opened_at (m : mstate) (si : nat) : bool :=
-  match nth_error (m_streams m) si with
-  | Some s => match st_open s with Some _ => true | None => false end
-  | None => false
-  end.
-
+(* opened_at is defined in MuxLift.v *)
 Definition shifted (t : trk) (smp0 : sample) : Z :=
   s_dts smp0 + durationToTimestamp fmp4StartDTS (t_rate (tk_cfg t)).
 
